@@ -28,11 +28,12 @@ if [ -f "$DEST/demo.rs" ] && grep -q "^fn main" "$DEST/demo.rs"; then
 elif [ -f "$DEST/demo.rs" ]; then
   cp "$DEST/demo.rs" tests/seed_demo.rs
   grep -q 'name = "seed_demo"' Cargo.toml || printf '\n[[test]]\nname = "seed_demo"\n' >> Cargo.toml
+  grep -q 'harness = false' "$DEST/demo_howto.txt" 2>/dev/null && printf 'harness = false\n' >> Cargo.toml
   FEAT=$(grep -o 'required-features.*' "$DEST/demo_howto.txt" 2>/dev/null | head -1)
-  DW=$(timeout 300 cargo test --offline --features "executor block_on signals stream futures-io" --test seed_demo 2>&1 | grep -E "^test result|panicked|error\[" | head -3 | tr '\n' ' ')
+  DW=$(timeout 300 cargo test --offline $DEMO_FLAGS --features "executor block_on signals stream futures-io" --test seed_demo 2>&1 | grep -E "^test result|panicked|error\[|seed_demo: OK" | head -3 | tr '\n' ' ')
   echo "demo WITH change: $DW" | tee -a "$LOG"
   git apply -R "$DEST/patch.diff"
-  DO=$(timeout 300 cargo test --offline --features "executor block_on signals stream futures-io" --test seed_demo 2>&1 | grep -E "^test result|panicked|error\[" | head -3 | tr '\n' ' ')
+  DO=$(timeout 300 cargo test --offline $DEMO_FLAGS --features "executor block_on signals stream futures-io" --test seed_demo 2>&1 | grep -E "^test result|panicked|error\[|seed_demo: OK" | head -3 | tr '\n' ' ')
   echo "demo WITHOUT change: $DO" | tee -a "$LOG"
 fi
 cd /; git -C /repo worktree remove --force "$W"
